@@ -25,7 +25,7 @@ RULE = ('case = (role, local configured maximum, peer-announced maximum, data le
         'non-trivial = every case (each negotiates and transmits)')
 ASSUMPTIONS = ['maximum length bounds the P-DATA-TF variable field (PS3.8 D.1); 0 means no limit']
 REQUIRED = ['oracle.announced-value', 'oracle.peer-limit-honoured', 'oracle.message-complete',
-            'sim.entity-storage', 'sim.source-short-reads']
+            'sim.entity-storage', 'sim.entity-hook', 'sim.source-short-reads']
 
 GRID = [0, 7, 8, 9, 126, 127, 128, 129, 1023, 1024, 1025, 16383, 16384, 16385, 65535, 65536, 65537,
         2 ** 31 - 1, 2 ** 31, 2 ** 31 + 1, 2 ** 32 - 2, 2 ** 32 - 1]
@@ -73,6 +73,11 @@ def run_shard(spec, tier, seed):
                 # the ready-made storage entities negotiate like the plain ones
                 run_case(res, {'role': spec['role'], 'local': local, 'peer': peer, 'len': sizes_for(eff)[-1],
                                'seed': seed, 'kind': 'storage'})
+                if spec['role'] == 'acceptor':
+                    # per-peer configuration: the application's on_association_request sets the
+                    # acceptor's maximum for this association
+                    run_case(res, {'role': 'acceptor', 'local': local, 'peer': peer, 'len': sizes_for(eff)[-1],
+                                   'seed': seed, 'kind': 'hook'})
     else:
         for i in range(spec['lo'], spec['hi']):
             r = rng(seed, 'c10', i)
@@ -164,6 +169,11 @@ def _run(res, case, role, local, peer, n, kind, where, storage_dir):
             if role == 'acceptor':
                 if kind == 'storage':
                     ae = pynetdicom2.StorageAE(storage_dir, 'LOCAL', 0, max_pdu_length=local)
+                elif kind == 'hook':
+                    class PerPeer(applicationentity.AE):
+                        def on_association_request(self, asce, assoc):
+                            asce.max_pdu_length = local
+                    ae = PerPeer('LOCAL', 0, bind_and_activate=False)
                 else:
                     ae = applicationentity.AE('LOCAL', 0, bind_and_activate=False, max_pdu_length=local)
                 try:
@@ -205,7 +215,7 @@ def _run(res, case, role, local, peer, n, kind, where, storage_dir):
                           '%s: no Maximum Length sub-item in the PDU produced' % where, case)
             return
         res.sample({'case': case, 'announced': announced}, limit=5)
-        if local != 0 and (announced == 0 or announced > local):
+        if kind != 'hook' and local != 0 and (announced == 0 or announced > local):
             res.violation(key_for(case, 'announces-more-than-configured'), 'C10.announced',
                           '%s: announces %d (0 = unlimited) but is configured to receive at most %d' % (
                               where, announced, local), case)
